@@ -35,6 +35,7 @@ UFUNC_OF_OP = {"+": "add", "-": "subtract", "*": "multiply", "%": "divide", "&":
 FROZEN_RANK1 = {("&", ("min",)): "minimum", ("|", ("max",)): "maximum"}
 REVIEWED = {
     (",", ("concatenate",)): "Join is not a ufunc; the shortcut is guarded by isarray(a) and dtype != 'O' (homogeneous numeric rows), where ,/ is concatenation of the rows",
+    (",", ()): "under the same guards and a.ndim == 1 the operand itself is returned: joining the elements of a flat numeric vector gives that vector",
 }
 
 
@@ -62,8 +63,8 @@ def check(ctx):
                 ctx.ob("C02-R1", adv, f"shortcut operator {op} is a dyad", False, node=node, construct=f"shortcut for unknown dyad {op}")
                 continue
             if (op, tuple(prims[0]) if prims else ()) in REVIEWED:
-                need = ("isarray" in " ".join(guards)) and ("dtype" in " ".join(guards))
-                ctx.ob("C02-R1", adv, f"`{op}` shortcut {prims[0]} is the reviewed exception and keeps its guards", need, node=node, construct=f"{kind} {op} reviewed exception guards",
+                need = ("isarray" in " ".join(guards)) and ("dtype" in " ".join(guards)) and (bool(prims) or any(g.replace(" ", "") == "a.ndim==1" for g in guards))
+                ctx.ob("C02-R1", adv, f"`{op}` shortcut {prims[0] if prims else 'operand itself'} is the reviewed exception and keeps its guards", need, node=node, construct=f"{kind} {op} reviewed exception guards" + ("" if prims else " (identity arm)"),
                        msg=f"the reviewed `{op}` shortcut lost its isarray / dtype != 'O' guard")
                 continue
             U = UFUNC_OF_OP.get(op)
